@@ -61,13 +61,18 @@ func goLazy(cs lazyCase) (calls []string, delivered []byte, openErr string) {
 	if err != nil {
 		return nil, nil, err.Error()
 	}
+	more := 3 // calls still to be made after an error (the caller ignoring it): results must equal the model's, no panic
 	for _, sz := range cs.Sizes {
 		p := make([]byte, sz)
 		n, err := rd.Read(p)
 		delivered = append(delivered, p[:n]...)
 		calls = append(calls, fmt.Sprintf("%d:%s", n, lazyStatus(err)))
 		if err != nil && err != io.EOF {
-			break // after io.EOF the schedule goes on: end of stream must be stable
+			if more == 0 {
+				break
+			}
+			more--
+			continue // after io.EOF the schedule goes on: end of stream must be stable
 		}
 	}
 	return calls, delivered, ""
@@ -258,13 +263,18 @@ func goLazy2(cs lazyCase) (calls []string, delivered []byte) {
 	if err != nil {
 		return []string{"0:open"}, nil
 	}
+	more := 3 // calls still to be made after an error (the caller ignoring it): results must equal the model's, no panic
 	for _, sz := range cs.Sizes {
 		p := make([]byte, sz)
 		n, err := rd.Read(p)
 		delivered = append(delivered, p[:n]...)
 		calls = append(calls, fmt.Sprintf("%d:%s", n, lazy2Status(err)))
 		if err != nil && err != io.EOF {
-			break
+			if more == 0 {
+				break
+			}
+			more--
+			continue
 		}
 	}
 	return calls, delivered
@@ -456,13 +466,18 @@ func goLazyXz(cs lazyXzCase) (calls []string, delivered []byte, openSt string) {
 	if err != nil {
 		return nil, nil, lazyXzStatus(err)
 	}
+	more := 0 // the xz reader's errors are not sticky and Model/LazyXz.lean keeps no faithful state after one: stop at the first (readAllGuard still calls Read after errors, looking for panics)
 	for _, sz := range cs.Sizes {
 		p := make([]byte, sz)
 		n, err := rd.Read(p)
 		delivered = append(delivered, p[:n]...)
 		calls = append(calls, fmt.Sprintf("%d:%s", n, lazyXzStatus(err)))
 		if err != nil && err != io.EOF {
-			break
+			if more == 0 {
+				break
+			}
+			more--
+			continue
 		}
 	}
 	return calls, delivered, ""
